@@ -1702,7 +1702,7 @@ class WindowFrameAnalyticFunction(AnalyticFunction):
         def __str__(self) -> str:
             # pylint: disable=E1101
             return "{value} {modifier}".format(
-                value=self.value or "UNBOUNDED",
+                value="UNBOUNDED" if self.value is None else self.value,  # 0 PRECEDING is the current row, not "unbounded"
                 modifier=self.modifier,  # type:ignore[attr-defined]
             )
 
